@@ -24,6 +24,8 @@ def main(tier):
     trace_part(chk, tier)
     from harness import parsebind
     parsebind.part(chk, tier, 'trace-parse', n_quick=300, n_thorough=4000, seed=2)     # An+B texts -> IR (incl. the implied of *|*) by Lexer + ParseSel + Ir
+    from checks import c04 as _c04
+    _c04._lazy_part(chk)        # `of S` positions judged against the tree as it is when a lazy iselect() reaches the element (the consumer changes classes between elements)
     from harness import suite
     suite.part(chk, 'C02')      # the repository's own test-suite as a trace corpus
     return chk.finish()
@@ -57,7 +59,8 @@ def trace_part(chk, tier):
     for k in range(ndocs):
         # every third document: element names that differ only in case (the same type in HTML, different types in XML)
         d = gen.rand_doc(rng, nmax=16 if tier == 'quick' else 24, kinds=('e', 'e', 'e', 'e', 't', 'c'),
-                         names=['a', 'A', 'b', 'B'] if k % 3 == 1 else gen.NAMES, xml=(k % 6 == 1) or None)
+                         names=['a', 'A', 'b', 'B'] if k % 3 == 1 else (['a', 'b', 'iframe'] if k % 6 == 2 else gen.NAMES), xml=(k % 6 == 1) or None)
+        # (k % 6 == 2: element children of an <iframe> - they are siblings of one another like any others)
         asts = []
         for _ in range(nsel):
             of = [gen.rand_complex(rng, 1, maxc=1)] if rng.random() < 0.3 else []
